@@ -78,6 +78,89 @@ type progCase struct {
 	Rename bool         `json:"rename,omitempty"`
 	BOM    bool         `json:"bom,omitempty"`
 	LoneCR int          `json:"lone_cr,omitempty"` // replace every n-th " = " by " =\r" (a lone CR is whitespace to the lexer)
+	Before []string     `json:"before,omitempty"`  // other module items (text), placed before / after the generated routes and functions
+	After  []string     `json:"after,omitempty"`
+}
+
+// ---- module items other than routes and functions ---------------------------------
+// Type definitions, commands, cron tasks, event handlers, queue workers, WebSocket routes,
+// constants, imports, route directives: the forms the rewriting tools have their own rules for
+// (the expanded syntax spells most of them with a keyword). Built from templates with drawn names,
+// values and layout; every form was checked to parse on the pinned tree.
+
+var itemIdents = []string{"User", "item", "total_count", "x1", "Order", "msg", "weekly_report", "a", "handler2"}
+var itemStrs = []string{"x", "user.created", "a b", "0 9 * * 0", "*/5 * * * *", "it's", "say \\\"hi\\\"", "# not a comment", "let x = route", "C:\\\\dir\\\\", "", "return type"}
+
+func genItem(rt *rapid.T, i int, known map[string]bool) string {
+	l := func(s string) string { return fmt.Sprintf("it%d%s", i, s) }
+	id := func(k string) string { return itemIdents[lang.Spread(rt, l(k), len(itemIdents))] }
+	str := func(k string) string { return "\"" + itemStrs[lang.Spread(rt, l(k), len(itemStrs))] + "\"" }
+	num := func(k string) string { return fmt.Sprint(lang.Spread(rt, l(k), 50)) }
+	ind := []string{"  ", "    ", "\t"}[lang.Spread(rt, l("ind"), 3)]
+	body := func() string {
+		var sb strings.Builder
+		for k, n := 0, 1+lang.Spread(rt, l("nb"), 3); k < n; k++ {
+			switch lang.Spread(rt, l(fmt.Sprintf("bs%d", k)), 5) {
+			case 0:
+				sb.WriteString(ind + "$ " + id(fmt.Sprintf("bv%d", k)) + "_" + fmt.Sprint(k) + " = " + num(fmt.Sprintf("bn%d", k)) + " + 1\n")
+			case 1:
+				sb.WriteString(ind + "$ s" + fmt.Sprint(k) + " = " + str(fmt.Sprintf("bstr%d", k)) + "\n")
+			case 2:
+				sb.WriteString(ind + "if " + num(fmt.Sprintf("bc%d", k)) + " > 3 {\n" + ind + ind + "> {ok: false}\n" + ind + "}\n")
+			case 3:
+				sb.WriteString(ind + "# a comment with a $ and a > and \"quotes\"\n")
+			case 4:
+				sb.WriteString(ind + "$ o" + fmt.Sprint(k) + " = {type: " + str(fmt.Sprintf("bo%d", k)) + ", n: " + num(fmt.Sprintf("bon%d", k)) + "}\n")
+			}
+		}
+		sb.WriteString(ind + "> {ok: true, n: " + num("ret") + "}\n")
+		return sb.String()
+	}
+	switch lang.Spread(rt, l("kind"), 14) {
+	case 0, 1:
+		fields := []string{"id: int!", "name: str = " + str("td"), "tags: [str]", "score: float = 1.5", "other: Other?", "u: int | str", "active: bool = true", "items: List[int]", "n: int = " + num("tn")}
+		var sb strings.Builder
+		name := "T" + fmt.Sprint(i) + id("tname")
+		sb.WriteString(": " + name + " {\n")
+		for k, n := 0, 1+lang.Spread(rt, l("nf"), 5); k < n; k++ {
+			sb.WriteString(ind + fields[lang.Spread(rt, l(fmt.Sprintf("f%d", k)), len(fields))] + "\n")
+		}
+		sb.WriteString("}\n")
+		return sb.String()
+	case 2:
+		return ": Box" + fmt.Sprint(i) + "<T> {\n" + ind + "value: T\n" + ind + "label: str = " + str("gl") + "\n}\n"
+	case 3:
+		if known[kFlags] {
+			return "! cmd" + fmt.Sprint(i) + " name: str! {\n" + body() + "}\n"
+		}
+		return "! cmd" + fmt.Sprint(i) + " name: str! --formal: bool = false --count: int = " + num("cf") + " {\n" + body() + "}\n"
+	case 4:
+		return "* " + str("cron") + " task" + fmt.Sprint(i) + " {\n" + ind + "+ retries(" + num("rt") + ")\n" + ind + "% db: Database\n" + body() + "}\n"
+	case 5:
+		async := ""
+		if lang.Spread(rt, l("async"), 2) == 0 {
+			async = " async"
+		}
+		return "~ " + str("ev") + async + " {\n" + ind + "$ eid = event.id\n" + body() + "}\n"
+	case 6:
+		return "& " + str("q") + " {\n" + ind + "+ concurrency(" + num("cc") + ")\n" + ind + "$ to = message.to\n" + body() + "}\n"
+	case 7:
+		return "@ ws /chat" + fmt.Sprint(i) + "/:room {\n" + ind + "on connect {\n" + ind + ind + "ws.join(" + str("wr") + ")\n" + ind + "}\n" + ind + "on message {\n" + ind + ind + "ws.broadcast(input)\n" + ind + ind + "ws.send({type: " + str("wt") + "})\n" + ind + "}\n" + ind + "on disconnect {\n" + ind + ind + "ws.leave(" + str("wr2") + ")\n" + ind + "}\n}\n"
+	case 8:
+		if lang.Spread(rt, l("ct"), 2) == 0 {
+			return "const K" + fmt.Sprint(i) + " = " + num("cv") + "\n"
+		}
+		return "const N" + fmt.Sprint(i) + ": str = " + str("cs") + "\n"
+	case 9:
+		return []string{"import \"./utils\"\n", "import \"./models\" as m\n", "from \"./utils\" import { a, b }\n"}[lang.Spread(rt, l("imp"), 3)]
+	case 10:
+		return "@ GET /dir" + fmt.Sprint(i) + "/:id {\n" + ind + "+ auth(jwt)\n" + ind + "+ ratelimit(" + num("rl") + "/min)\n" + ind + "% db: Database\n" + ind + "? page: int = " + num("pg") + "\n" + ind + "? q: str\n" + body() + "}\n"
+	case 11:
+		return "@ POST /typed" + fmt.Sprint(i) + " -> Thing {\n" + ind + "< input: Thing\n" + ind + "> input\n}\n"
+	case 12:
+		return "! gen" + fmt.Sprint(i) + "<T>(xs: [T], n: int = " + num("gd") + "): T {\n" + ind + "> xs[0]\n}\n"
+	}
+	return "@ static /assets" + fmt.Sprint(i) + " " + str("sd") + "\n"
 }
 
 // identifiers that are keywords of the expanded syntax
@@ -161,6 +244,19 @@ func genProgFor(rt *rapid.T, forExpand bool) progCase {
 	}
 	if lang.Spread(rt, "cr", 15) == 0 {
 		pc.LoneCR = 1 + lang.Spread(rt, "crn", 3)
+	}
+	if lang.Spread(rt, "items", 100) < 55 {
+		for i, n := 0, 1+lang.Spread(rt, "nitems", 4); i < n; i++ {
+			it := genItem(rt, i, known)
+			if forExpand && known[kReserved] && usesReservedWords(it) {
+				continue // steered away, as for generated names
+			}
+			if lang.Spread(rt, fmt.Sprintf("itpos%d", i), 2) == 0 {
+				pc.Before = append(pc.Before, it)
+			} else {
+				pc.After = append(pc.After, it)
+			}
+		}
 	}
 	return pc
 }
@@ -260,6 +356,12 @@ func (c progCase) source() (string, error) {
 			}
 		}
 		s = sb.String()
+	}
+	if len(c.Before) > 0 {
+		s = strings.Join(c.Before, "\n") + "\n" + s
+	}
+	if len(c.After) > 0 {
+		s = s + "\n" + strings.Join(c.After, "\n")
 	}
 	if c.BOM {
 		s = "\ufeff" + s
@@ -442,7 +544,11 @@ func runFmt(c progCase) evid.Outcome {
 	if c.File != "" {
 		lab = "example"
 	}
-	return evid.Outcome{Nontrivial: nontrivialSource(c, src), Labels: []string{lab}, Canon: src}
+	labs := []string{lab}
+	if len(c.Before)+len(c.After) > 0 {
+		labs = append(labs, "with-module-items")
+	}
+	return evid.Outcome{Nontrivial: nontrivialSource(c, src), Labels: labs, Canon: src}
 }
 
 func TestC18Fmt(t *testing.T) {
@@ -490,7 +596,11 @@ func runExpand(c progCase) evid.Outcome {
 	if c.File != "" {
 		lab = "example"
 	}
-	return evid.Outcome{Nontrivial: nontrivialSource(c, src), Labels: []string{lab}, Canon: src}
+	labs := []string{lab}
+	if len(c.Before)+len(c.After) > 0 {
+		labs = append(labs, "with-module-items")
+	}
+	return evid.Outcome{Nontrivial: nontrivialSource(c, src), Labels: labs, Canon: src}
 }
 
 // classifyExpand: signature of the recorded findings - the source uses a reserved word as a name
